@@ -413,7 +413,11 @@ func parseMultilayerExtension(r *bits.EBSPReader) (*MultilayerExtension, error) 
 func parseColourMappingTable(r *bits.EBSPReader) (*ColourMappingTable, error) {
 	cm := &ColourMappingTable{}
 	// value shall be in the range of 0 to 61, inclusive
-	cm.NumCmRefLayersMinus1 = uint8(r.ReadExpGolomb())
+	numCmRefLayersMinus1 := r.ReadExpGolomb()
+	if numCmRefLayersMinus1 > 61 {
+		return nil, fmt.Errorf("num_cm_ref_layers_minus1 %d is larger than 61", numCmRefLayersMinus1)
+	}
+	cm.NumCmRefLayersMinus1 = uint8(numCmRefLayersMinus1)
 	for i := uint8(0); i <= cm.NumCmRefLayersMinus1; i++ {
 		cm.RefLayerId = append(cm.RefLayerId, uint8(r.Read(6)))
 	}
